@@ -85,7 +85,7 @@ Proof. exact orefa_rename_mkdir_deadlock. Qed.
 
 (* Link (file, new parent, index) against Remove (index, parent, child) *)
 Theorem C07_refuted_orefa_link_remove :
-  lp_reaches_deadlock [orefa_link_af_bx; orefa_remove_a_f] [0; 0; 0; 1; 1] = true.
+  lp_reaches_deadlock [orefa_link_af_bx; orefa_remove_a_f] [0; 0; 0; 0; 0; 1; 1] = true.
 Proof. exact orefa_link_remove_deadlock. Qed.
 
 (* two opposite cross-directory OrefaFS Renames *)
